@@ -390,6 +390,16 @@ class LibGen:
                 need = 3 if cn == "Polygon" else 2
                 while len(args[1]) < need:
                     args[1].append(gen_point(rng))
+                # point lists with structure a reader or writer might be tempted to "normalise": explicitly closed
+                # (last point repeats the first), a repeated interior point, all points equal
+                r = rng.random()
+                if r < 0.15:
+                    args[1].append(dict(args[1][0]))
+                elif r < 0.22:
+                    k = rng.randrange(len(args[1]))
+                    args[1].insert(k, dict(args[1][k]))
+                elif r < 0.25:
+                    args[1] = [dict(args[1][0]) for _ in args[1]]
             if t[1] == "lef_propdef" and cn == "LefString" and args[2] is not None:
                 args[2] = H(gen_quoted(rng))
             return {"v": cn, "a": args}
